@@ -730,7 +730,7 @@ def r10_download_stream_discipline(ctx):
                     f'{ci.name}.download_stream: the length `{src(arg, 40) if arg is not None else ""}` is not taken from the open descriptor (os.fstat(file.fileno())): an upload that replaces the object between the size '
                     'lookup and the open makes the download deliver the new bytes padded / cut to the old length',
                 )
-    ctx.floor('C13.R6', 'download_stream implementations writing into the destination', n, 3)
+    ctx.floor('C13.R6', 'download_stream implementations writing into the destination', n, 2)
 
 
 def r11_wrappers_forward_arguments(ctx, rule='C13.R1'):
